@@ -27,6 +27,7 @@ import (
 	"github.com/krotik/ecal/parser"
 
 	"verif/internal/ev"
+	"verif/internal/hx"
 )
 
 func looksLikeTreeDump(s string) bool {
@@ -56,7 +57,7 @@ func TestGenCorpus(t *testing.T) {
 		func() {
 			defer func() { recover() }()
 			if n, err := parser.Parse("corpus", s); err == nil && n != nil {
-				if wellFormed(n) == nil {
+				if wellFormed(n, false) == nil {
 					seen[s] = true
 					out = append(out, s)
 				}
@@ -111,4 +112,39 @@ func TestGenCorpus(t *testing.T) {
 		}
 	}
 	t.Logf("corpus: %d programs (%d example files), %d fuzz seeds", len(out), nex, len(seeds))
+}
+
+// TestMakeRegress (development-time tool): runs the named inputs through runCase against
+// the repository the module currently points at and writes a regression file for each
+// one that fails — run it against the UNFIXED tree, so every committed regression case is
+// known to fail there.
+//
+//   cd /verif/harness && C07_MAKE_REGRESS=/verif/regress/C07 go test -tags verif -count=1 -run '^TestMakeRegress$' -v ./c07
+func TestMakeRegress(t *testing.T) {
+	dir := os.Getenv("C07_MAKE_REGRESS")
+	if dir == "" {
+		t.Skip("C07_MAKE_REGRESS not set")
+	}
+	for _, rc := range [][2]string{
+		{"tree-and-error", "a; )"},
+		{"nil-child-in-block", "if true { ) ; a }"},
+		{"lexer-goroutine-leak", ") a b c d"},
+		{"skiptoken-ignored-compaccess", `A["0000`},
+		{"skiptoken-ignored-toplevel", `a;"`},
+		{"skiptoken-ignored-block", `if a { b ;" }`},
+		{"brace-operand-in-guard", "if a == { { b } {c}"},
+		{"map-entry-not-kvp", "{a}"},
+		{"prettyprint-empty-comment", "/**/a"},
+	} {
+		c := mkCase("directed", rc[1])
+		f := runCase(c)
+		if f == nil {
+			t.Errorf("%s: %q does not fail on this tree", rc[0], rc[1])
+			continue
+		}
+		os.Setenv("VERIF_REPLAY", filepath.Join(dir, rc[0]+".json"))
+		hx.WriteReplay(c, f)
+		t.Logf("%s: %s", rc[0], f.Sig)
+	}
+	os.Unsetenv("VERIF_REPLAY")
 }
